@@ -245,6 +245,11 @@ def analyse(check: Check, repo: Repo) -> None:
                 is_global_write = True
             if recv_txt.endswith(".BUILTIN") or recv_txt in ("cls.BUILTIN", "self.BUILTIN", "Parser.BUILTIN"):
                 is_global_write = True
+        if in_function and kind in ("attr-store", "delete", "item-store", "mutating-call"):
+            # a class object (or type(self) / self.__class__) as receiver: class attributes are process-wide
+            if (tn and any(t.startswith("type:") for t in tn)) or recv_txt in ("cls", "type(self)", "self.__class__") or recv_txt.startswith(("type(self).", "self.__class__.", "cls.")):
+                if not (fname == "__init_subclass__"):
+                    is_global_write = True
         if is_global_write:
             sig = f"process-wide object {recv_txt} is mutated by {kind}"
             check.oblige("SHARED-WRITE", f"{rel}::{qual}", sig, False, finding=Finding("SHARED-WRITE", f"{rel}::{qual}", sig, f"{qual}: `{target}` mutates a module-/class-level object shared by every parser in the process", {}))
